@@ -6,12 +6,12 @@ use crate::iogen::*;
 use crate::json::J;
 use crate::rng::Rng;
 
-pub const RULE: &str = "case = one valid base file (generated with 1..3 records, or a bundled test file) of one format, from which malformed inputs are derived: EVERY prefix, single-byte substitution / deletion / insertion at every offset (quick: 3 sampled (operation, byte) pairs per offset; thorough: all) with bytes from {'>','[',']',':','/',tab,space,LF,CR,digit,letter,0x00,0x80,0xFF}, byte-order marks / stray terminators / NUL / blank lines in front of complete, unterminated and truncated bodies (with and without trailing junk), dropped final newline, ragged rows, header without matrix, matrix without header, huge numbers, duplicated symbol rows; plus fixed inputs (empty, whitespace, random bytes, invalid UTF-8). Each input is given to the reader of its format (1 in 4 also to the three other readers) through a Cursor or a random chunking schedule (BufReader capacity 1..300, short reads, injected Interrupted). Oracle: Reader::new and every next() run under catch_unwind (panic = violation); the consumer stops at the first Err / None and may receive at most (input length + 2) records; a reader polling end-of-input more than 10000 times is a livelock (decided on logical steps, not on the clock). Non-trivial = input that differs from its base file; distinct = distinct (format reader, input bytes).";
+pub const RULE: &str = "case = one valid base file (generated with 1..3 records, or a bundled test file) of one format, from which malformed inputs are derived: EVERY prefix, single-byte substitution / deletion / insertion at every offset (quick: 3 sampled (operation, byte) pairs per offset; thorough: all) with bytes from {'>','[',']',':','/',tab,space,LF,CR,digit,letter,0x00,0x80,0xFF}, byte-order marks / stray terminators / NUL / blank lines in front of complete, unterminated and truncated bodies (with and without trailing junk), dropped final newline, ragged rows, over-long lines (the tokens of a line repeated 2-8 times), header without matrix, matrix without header, huge numbers, duplicated symbol rows; plus fixed inputs (empty, whitespace, random bytes, invalid UTF-8). Each input is given to the reader of its format (1 in 4 also to the three other readers) through a Cursor or a random chunking schedule (BufReader capacity 1..300, short reads, injected Interrupted). Oracle: Reader::new and every next() run under catch_unwind (panic = violation); the consumer stops at the first Err / None and may receive at most (input length + 2) records; a reader polling end-of-input more than 10000 times is a livelock (decided on logical steps, not on the clock). Non-trivial = input that differs from its base file; distinct = distinct (format reader, input bytes).";
 
 pub const REQUIRED: &[&str] = &[
     "reader.jaspar", "reader.jaspar16", "reader.transfac", "reader.uniprobe", "reader.protein", "input.empty",
     "input.prefix", "input.substitution", "input.deletion", "input.insertion", "input.multibyte_insertion", "input.framing", "input.no_final_newline",
-    "input.ragged", "input.header_only", "input.matrix_only", "input.huge_number", "input.duplicate_symbol",
+    "input.ragged", "input.long_line", "input.header_only", "input.matrix_only", "input.huge_number", "input.duplicate_symbol",
     "input.random_bytes", "input.invalid_utf8", "outcome.error", "outcome.records", "schedule.chunked",
     "schedule.cursor", "cross_format",
 ];
@@ -335,6 +335,41 @@ fn derive_and_feed(case: u64, rng: &mut Rng, rep: &mut Report, cfg: &Config, for
                 }
                 send(rng, rep, t.as_bytes(), "ragged");
             }
+        }
+        // over-long lines: the tokens of one line repeated (an alphabet line listing more symbols
+        // than the alphabet has, a matrix row with several times the expected cells)
+        for _ in 0..8 {
+            let li = rng.below(lines.len());
+            let body = lines[li].trim_end_matches('\n');
+            let toks: Vec<&str> = body.split_whitespace().collect();
+            if toks.is_empty() {
+                continue;
+            }
+            let reps = rng.range(2, 8);
+            let sep = *rng.pick(&[" ", "      ", "\t"]);
+            let mut long = String::new();
+            for r in 0..reps {
+                for (ti, t) in toks.iter().enumerate() {
+                    // keep the line's leading tag (first token) once
+                    if r > 0 && ti == 0 && toks.len() > 1 {
+                        continue;
+                    }
+                    if !long.is_empty() {
+                        long.push_str(sep);
+                    }
+                    long.push_str(t);
+                }
+            }
+            let mut t = String::new();
+            for (i, l) in lines.iter().enumerate() {
+                if i == li {
+                    t.push_str(&long);
+                    t.push('\n');
+                } else {
+                    t.push_str(l);
+                }
+            }
+            send(rng, rep, t.as_bytes(), "long_line");
         }
         // header only / matrix only
         send(rng, rep, lines[0].as_bytes(), "header_only");
